@@ -357,6 +357,30 @@ theorem stats_once (pre : List Part) (hpre : ∀ p ∈ pre, WellTyped p) (xid t 
   rw [h1, eventsFrom_reply, hclosed]
   simp [Out.ofOption]
 
+/-- **stats_same_request_again** — a request id used again (a poller with a fixed xid, or xid 0): after any history `pre`, a
+complete reply to `(xid, t)`, and then any parts `mid` of *other* requests (complete or not), a second reply with the same
+xid and type is assembled from scratch: nothing at its non-final parts, one event at its final part, carrying exactly the
+second reply's entries — none of the first reply's, and all of its own (also when the final part is empty).  By induction the
+same holds for any number of rounds. -/
+theorem stats_same_request_again (pre mid : List Part) (hpre : ∀ p ∈ pre, WellTyped p) (hmid : ∀ p ∈ mid, WellTyped p)
+    (xid t : Nat) (ht : aggregatable t = true) (i1 i2 : List (List Nat)) (l1 l2 : List Nat)
+    (hother : ∀ p ∈ mid, p.req ≠ (xid, t)) :
+    (runStats (runStats [] (pre ++ mkReply xid t i1 l1 ++ mid)).1 (mkReply xid t i2 l2)).2 =
+      List.replicate i2.length .quiet ++
+        [.event ⟨t, (i2 ++ [l2]).flatten, List.replicate (i2.length + 1) xid⟩] := by
+  apply stats_once (pre ++ mkReply xid t i1 l1 ++ mid) _ xid t i2 l2 (.inl ht)
+  · rw [openParts_append_other _ _ _ hother, openParts_after_reply]
+  · intro p hp
+    have hh : (handlerOf t).isSome = true := by rw [handlerOf_agg ht]; rfl
+    rcases List.mem_append.mp hp with hp | hp
+    · rcases List.mem_append.mp hp with hp | hp
+      · exact hpre p hp
+      · simp only [mkReply, List.mem_append, List.mem_map, List.mem_singleton] at hp
+        rcases hp with ⟨b, _, rfl⟩ | rfl
+        · exact ⟨fun _ => ht, hh⟩
+        · exact ⟨fun _ => ht, hh⟩
+    · exact hmid p hp
+
 /-- **stats_no_merge** — in any stream `s` of parts of any number of requests, if the parts of request `(xid, t)` — taken out
 of the stream in order — form a reply `init ++ [last]`, then, whatever other requests' parts arrive in between and whether or
 not those other replies are complete, request `(xid, t)` gets exactly one event, at its final part, carrying exactly its own
@@ -494,6 +518,8 @@ example : (runStats [] [a1, b1, a2]).2 = [.quiet, .event ⟨4, [20], [8]⟩, .ev
     (runStats [] [⟨9, 0xffff, false, []⟩]).2 = [.quiet] := by decide
 
 /-! non-vacuity of the statistics theorems -/
+example : (runStats [] (mkReply 0 1 [[1], [2]] [3] ++ [b1] ++ mkReply 0 1 [[4]] [])).2 =
+    [.quiet, .quiet, .event ⟨1, [1, 2, 3], [0, 0, 0]⟩, .event ⟨4, [20], [8]⟩, .quiet, .event ⟨1, [4], [0, 0]⟩] := by decide
 example : [a1, ⟨8, 1, true, [30]⟩, a2, ⟨8, 1, false, [31]⟩].filter (fun p => p.req == (8, 1)) = mkReply 8 1 [[30]] [31] ∧
     (runStats [] [a1, ⟨8, 1, true, [30]⟩, a2, ⟨8, 1, false, [31]⟩]).2 =
       [.quiet, .quiet, .event ⟨1, [10, 11, 12], [7, 7]⟩, .event ⟨1, [30, 31], [8, 8]⟩] := by decide
